@@ -298,7 +298,8 @@ class GlobalStateUnit(Unit):
 
 
 def units():
-    return [SitesUnit(), GlobalStateUnit(), LeanUnit("lemma:L-PERM", "lemmas/LPerm.lean", ["run_eq_of_linear_extensions"])]
+    from . import c01driver
+    return c01driver.units_c15() + [SitesUnit(), GlobalStateUnit(), LeanUnit("lemma:L-PERM", "lemmas/LPerm.lean", ["run_eq_of_linear_extensions"])]
 
 
 LEVEL = "other"
